@@ -120,13 +120,22 @@ def abandoned_connect_rules(run):
     run.check(ok, 'R4', 'abandoned-connect-notifies', T + '::abort_connect', ac.loc(good[0]) if good else ac.loc(),
               'abort_connect() drops the channel of a pending connect without telling the other end (an error packet carrying the channel along m_channel->hops[remote], sent before m_channel is reset): the SYN stays in the acceptor\'s queue and is handed out later as a live connection - a server that serves one connection at a time then waits on a client that is long gone and never accepts the next one',
               'error packet with p.channel = m_channel is forwarded before the channel is dropped, on every path with a channel')
+    # close(ec) and the destructor tear the socket down themselves: the pending connect is given up BEFORE they reset the
+    # channel or the binding (a destructor that delegates to close(ec) on every path inherits close's order)
     cl = fx.fn1(T + '::close', '(boost::system::error_code &)')
-    run.touch(cl)
-    acs = [c for c in cl.calls() if q.callee_name(c) == T + '::abort_connect']
-    clears = [a.site for a in q.field_accesses(cl, {T + '::m_channel', 'sim::asio::socket_base::m_bound_to'}) if (a.kind == 'assign' or (a.kind == 'method' and a.method == 'reset')) and is_node(a.site)]
-    run.check(bool(acs) and bool(clears) and all(q.any_precedes(cl, acs, w_) for w_ in clears), 'R4', 'abandoned-connect-notifies', T + '::close', cl.loc(),
-              'close(ec) resets m_channel or m_bound_to before abort_connect() ran: by the time the pending connect is given up there is no channel (or no source endpoint) left to notify the acceptor with',
-              'abort_connect() precedes every reset of m_channel / m_bound_to in close(ec)')
+    for td in [cl] + list(fx.fn(T + '::~socket')):
+        run.touch(td)
+        what = 'close(ec)' if td is cl else '~socket()'
+        if td is not cl:
+            dc = [c for c in td.calls() if c.get('usr') == cl.usr]
+            if dc and q.on_all_paths(td, dc):
+                run.ok('R4', 'abandoned-connect-notifies', td.norm, td.loc(), 'destructor delegates to close(ec) on every path')
+                continue
+        acs = [c for c in td.calls() if q.callee_name(c) == T + '::abort_connect']
+        clears = [a.site for a in q.field_accesses(td, {T + '::m_channel', 'sim::asio::socket_base::m_bound_to'}) if (a.kind == 'assign' or (a.kind == 'method' and a.method == 'reset')) and is_node(a.site)]
+        run.check(bool(acs) and bool(clears) and all(q.any_precedes(td, acs, w_) for w_ in clears), 'R4', 'abandoned-connect-notifies', td.norm, td.loc(),
+                  '%s resets m_channel or m_bound_to before abort_connect() ran: by the time the pending connect is given up there is no channel (or no source endpoint) left to notify the acceptor with - a connector closed or destroyed while queued at an acceptor is handed out by a later accept' % what,
+                  'abort_connect() precedes every reset of m_channel / m_bound_to in %s' % what)
     ipa = fx.fn1(A + '::incoming_packet')
     run.touch(ipa)
     er = []
